@@ -260,12 +260,26 @@ def _set_sigmas(ch, P, parset, progset, mode):
                     vals = [abs(v) for v in ts.vals] + ([abs(ts.assumption)] if ts.assumption is not None else [])
                     ts.sigma = 0.01 * (max(vals) if vals and max(vals) > 0 else 1.0)
                     npos += 1
+            only_constraints = False
             for nm in ("capacity_constraint", "saturation", "coverage"):
                 ts = getattr(prog, nm)
-                if mode in ("zero",):
-                    ts.sigma = 0.0
-                elif mode in ("none",):
+                k += 1
+                d = decide(f"sigma.prog_constraint[{k}]")
+                if d == "none" or not ts.has_data:
                     ts.sigma = None
+                elif d == "zero":
+                    ts.sigma = 0.0
+                else:
+                    vals = [abs(v) for v in ts.vals] + ([abs(ts.assumption)] if ts.assumption is not None else [])
+                    ts.sigma = 0.01 * (max(vals) if vals and max(vals) > 0 else 1.0)
+                    npos += 1
+                    only_constraints = True
+            if only_constraints and ch.flip(f"sigma.only_constraints[{k}]", 0.4):
+                # uncertainty entered for the constraints of a program but not for its cost function
+                for nm in ("spend_data", "unit_cost"):
+                    if getattr(prog, nm).sigma:
+                        npos -= 1
+                    getattr(prog, nm).sigma = None
         for co in progset.covouts.values():
             k += 1
             d = decide(f"sigma.covout[{k}]")
